@@ -565,4 +565,28 @@ class _QMC:
 
 
 qmc = _QMC()
-stats = _NS("scipy.stats")
+class _Stats:
+    def entropy(self, pk, qk=None, base=None, axis=0):
+        """A4: scipy.stats.entropy: sum p^ log(p^/q^) / log(base) after normalising pk and qk to sum 1, 0*log(0/q) = 0;
+        log is uninterpreted (axioms: t-1 >= log t, equality iff t = 1)"""
+        _trust("scipy.stats.entropy(pk, qk, base): sum p log(p/q) / log(base) after normalisation, 0 log 0 = 0")
+        pk = _base(to_symarray(_np.asarray(pk) if not isinstance(pk, _np.ndarray) else pk)).ravel().tolist()
+        if qk is None:
+            raise UnmodelledDependency("entropy without qk")
+        qk = _base(to_symarray(_np.asarray(qk) if not isinstance(qk, _np.ndarray) else qk)).ravel().tolist()
+        sp, sq = _sumlist(pk), _sumlist(qk)
+        tot = SymReal(0)
+        for p_, q_ in zip(pk, qk):
+            p_, q_ = SymReal.lift(p_) / sp, SymReal.lift(q_) / sq
+            term = p_ * (p_ / q_).log()
+            # scipy's rel_entr: 0 where p == 0 (and q >= 0)
+            tot = tot + (ite(p_ == 0, SymReal(0), term) if not p_.concrete else (SymReal(0) if p_.c == 0 else term))
+        if base is not None:
+            tot = tot / SymReal.lift(base).log()
+        return tot
+
+    def __getattr__(self, n):
+        raise UnmodelledDependency(f"scipy.stats.{n}")
+
+
+stats = _Stats()
